@@ -95,4 +95,18 @@ def run(tier: str) -> Check:
     hit = worst.get("MALFORMED") or worst.get("RAISES")
     check.oblige("PATTERN", construct, f"every emitted character class is well formed ({total} model points)" if not hit else sig, not hit,
                  finding=Finding("PATTERN", construct, sig, f"{sig}: for {hit[0]} it {hit[1]}" if hit else sig, {}))
+    # ... and the whole pattern, as the squash pass assembles it for every model choice (sa/squashsem.py, shared with
+    # C02 O12): what it emits compiles, with the engine the repository imports, and building it does not raise
+    from ..squashsem import check_squash
+
+    con2 = "src/pest/grammar/optimizers/squash_choice.py::squash_choice"
+    n_s, _, bad_s = check_squash(repo, con2, ["k", "K", "\u212a", "."], 2, False)
+    check.count("squash_model_choices", n_s)
+    mine = [(c, m) for c, m in bad_s if "does not compile" in c or "raises" in c]
+    check.oblige("PATTERN", con2, f"every pattern the squash pass emits compiles ({n_s} model choices)", True)
+    seen: set = set()
+    for c, m in mine:
+        if c not in seen:
+            seen.add(c)
+            check.oblige("PATTERN", con2, c, False, finding=Finding("PATTERN", con2, c, f"{c}: {m}; the pattern is compiled lazily inside parse(), where the error escapes", {"witness": m}))
     return check
